@@ -75,11 +75,11 @@ def queries(tier):
         if tx is not None:
             defs.update(TX='(%d)' % tx, TY='(%d)' % ty); pos = '_at%d_%d' % (tx, ty)
         return dict(name='text_%s_%dx%da%d_ba%d_n%d%s' % (('model', 'clipinv')[mode], W, H, A, BA, nch, pos), unit='img', harness='h_text.c', defs=defs, unwind=9,
-                    unwindset=COPY_LOOPS % ((n,) * 5) + ',X_vasprintf.0:8,' + loops(OPFN['fill'], max(W, H) + (3 if mode else 1)), timeout=900, mem_gb=8, object_bits=12,
+                    unwindset=COPY_LOOPS % ((n,) * 5) + ',X_vasprintf.0:8,' + loops(OPFN['fill'], max(W, H) + (3 if mode else 1)), timeout=900, mem_gb=8, object_bits=12, backend='cadical',
                     desc='draw_text %s on %dx%d (alpha=%d, background alpha %d, %d symbolic char(s)), position anywhere in [-7,W+1]x[-9,H+1]' % (('glyph/background per-pixel model', 'clipping invariance small vs (W+2)x(H+2)')[mode], W, H, A, BA, nch),
                     bounds='canvas %dx%d, %d character(s), 8-bit channels' % (W, H, nch))
     if tier == 'quick':
-        qs += [txq(0, 3, 3, 1, 255, 1, -3, -4), txq(0, 4, 2, 0, 0, 1, 1, -2), txq(1, 3, 3, 0, 255, 1, -5, 1), txq(1, 2, 2, 1, 0, 2, -7, -3)]
+        qs += [txq(0, 3, 3, 1, 255, 1, -3, -4), txq(0, 4, 2, 0, 0, 1, 1, -2), txq(1, 3, 3, 0, 255, 1, -5, 1)]
     IK = ['mirrorh', 'mirrorv', 'invert', 'alpha', 'width', 'copy', 'assign', 'move']
     def ivq(kind, W, H, A, CW, CW2=16):
         n = W * H * 4 * max(CW, CW2 if kind == 4 else 8) // 8 + 2
